@@ -340,3 +340,52 @@ fn native_zipatch_create_apply() {
     let _ = std::fs::remove_dir_all(&base);
     println!("NATIVE native_zipatch_create_apply cases={cases}");
 }
+
+//@use_common
+
+//@unit props=C17 label=B tier=quick native=1 fn=patch::ZiPatch::apply bound="by execution on temporary directories: a patch created from two small trees (two added files of 5 and 300 bytes, one removed file): every truncation and 7 single-byte corruptions per byte except the 9 bytes 'SQPK'+size+operation letter of each chunk (turning a file operation into an expand/delete-data command would make apply write gigabytes of zeros); plus delete-data, expand-data, add-data and header-update commands placed before any target info, and a missing patch file"
+//@desc damaged patch files (truncated anywhere, any byte of chunk sizes, names, block headers or checksums damaged, commands before target info, missing file) make apply return Ok or Err, never panic
+#[test]
+fn native_zipatch_damaged_nopanic() {
+    let base = std::env::temp_dir().join(format!("physis-verif-c17p-{}", std::process::id()));
+    let _ = std::fs::remove_dir_all(&base);
+    let (da, db, dw) = (base.join("A"), base.join("B"), base.join("W"));
+    nzp_write_tree(&da, &[("old/gone.bin".to_string(), nzp_content(1, 40))]);
+    nzp_write_tree(&db, &[("ffxivboot.exe".to_string(), nzp_content(2, 5)), ("sqpack/ffxiv/000000.win32.index".to_string(), nzp_content(3, 300))]);
+    let patch = ZiPatch::create(da.to_str().unwrap(), db.to_str().unwrap()).expect("create");
+    let empty = { let e = base.join("E"); std::fs::create_dir_all(&e).unwrap(); ZiPatch::create(e.to_str().unwrap(), e.to_str().unwrap()).expect("create") };
+    assert!(empty.len() == 20 && &empty[1..8] == b"ZIPATCH" && &empty[16..20] == b"EOF_", "12-byte header + end-of-file chunk");
+    let pf = base.join("p.patch");
+    let (pfs, dws) = (pf.to_str().unwrap().to_string(), dw.to_str().unwrap().to_string());
+    let f = { let (pfs, dws) = (pfs.clone(), dws.clone()); move |b: &[u8]| { std::fs::write(&pfs, b).unwrap(); let _ = ZiPatch::apply(&dws, &pfs); } };
+    std::fs::create_dir_all(&dw).unwrap();
+    assert!(ZiPatch::apply(&dws, base.join("missing.patch").to_str().unwrap()).is_err(), "a missing patch file is an ordinary failure");
+    let mut s = NativeSites::new();
+    // positions of the chunk magic + inner size + operation letter are left alone (see bound)
+    let mut skip = vec![false; patch.len()];
+    for i in 0..patch.len().saturating_sub(4) { if &patch[i..i + 4] == b"SQPK" { for k in i..(i + 9).min(patch.len()) { skip[k] = true; } } }
+    for t in 0..=patch.len() { s.run(&f, &patch[..t], &format!("truncation to {t} bytes")); }
+    let mut w = patch.clone();
+    for i in 0..patch.len() {
+        if skip[i] { continue; }
+        let o = patch[i];
+        for c in [0u8, 1, 0x7F, 0x80, 0xFF, o.wrapping_add(1), o.wrapping_sub(1)] { if c != o { w[i] = c; s.run(&f, &w, &format!("byte {i} changed from {o:#04x} to {c:#04x}")); } }
+        w[i] = o;
+    }
+    // data commands before any target info (block number 1 = 128 bytes)
+    for letter in [b'D', b'E', b'A', b'H'] {
+        let mut cmd = vec![0u8; 23];
+        cmd[3..5].copy_from_slice(&0u16.to_be_bytes()); cmd[5..7].copy_from_slice(&0u16.to_be_bytes()); cmd[7..11].copy_from_slice(&0u32.to_be_bytes());
+        cmd[11..15].copy_from_slice(&0u32.to_be_bytes()); cmd[15..19].copy_from_slice(&1u32.to_be_bytes());
+        let mut body: Vec<u8> = vec![];
+        body.extend_from_slice(&((5 + cmd.len()) as u32).to_be_bytes()); body.push(letter); body.extend_from_slice(&cmd);
+        if letter == b'A' { body.extend_from_slice(&[0u8; 128]); }
+        if letter == b'H' { body.truncate(5); body.extend_from_slice(&[b'D', b'V', 0]); body.extend_from_slice(&[0u8; 8]); body.extend_from_slice(&[0u8; 1024]); }
+        let mut p = empty[..12].to_vec();
+        p.extend_from_slice(&(body.len() as u32).to_be_bytes()); p.extend_from_slice(b"SQPK"); p.extend_from_slice(&body); p.extend_from_slice(&[0u8; 4]);
+        p.extend_from_slice(&empty[12..]);
+        s.run(&f, &p, &format!("'{}' command before any target info", letter as char));
+    }
+    let _ = std::fs::remove_dir_all(&base);
+    s.finish("native_zipatch_damaged_nopanic");
+}
